@@ -6,6 +6,7 @@ import (
 	"fmt"
 	"log"
 	"macsmol/magog/engine"
+	"math"
 	"os"
 	"strings"
 )
@@ -29,6 +30,9 @@ func main() {
 	// ---------- runtime profiling stuff -end- ---------
 
 	scanner := bufio.NewScanner(os.Stdin)
+	// no limit on the length of an input line: with the default of 64 KiB a longer line (a long game sent as
+	// `position ... moves ...`) makes Scan return false and the engine quits silently
+	scanner.Buffer(make([]byte, 0, bufio.MaxScanTokenSize), math.MaxInt)
 	// stop on `quit` and when the input stream ends (Scan returns false on EOF or on a read error)
 	for !engine.Quit && scanner.Scan() {
 		engine.ParseInputLine(scanner.Text())
